@@ -136,7 +136,7 @@ var redeclRe = regexp.MustCompile(`: (\w+) redeclared`)
 
 func RunC01(tier string, seed int64, outDir string, replay string) (*core.Result, error) {
 	res := core.NewResult("C01", tier, seed)
-	res.Rule = "random programs of the supported fragment (every custom scalar bound, options only where the documentation allows them: pointer / alias / typename / bind / struct / flatten / omitempty / for) under random genqlient.yaml settings (optional value|pointer|generic, use_struct_references, use_extensions, context_type, client_getter, casing, bindings with and without marshalers to same-named packages); each must be ACCEPTED, and the emitted file is compiled (go build, one package per program, in a scratch module that replaces genqlient with /repo and stubs every bound type); every declaration is also compared with the converter model in-kernel; non-trivial = every program; distinct by program text + config"
+	res.Rule = "random programs of the supported fragment (every custom scalar bound, options only where the documentation allows them: pointer / alias / typename / bind / struct / flatten / omitempty / for) under random genqlient.yaml settings (optional value|pointer|generic, use_struct_references, use_extensions, context_type, client_getter, casing, bindings with and without marshalers to same-named packages); each must be ACCEPTED, and the emitted file is compiled (go build, one package per program, in a scratch module that replaces genqlient with /repo and stubs every bound type); every declaration is also compared with the converter model in-kernel, and the (package path, alias) pairs that addImportFor chose during the run (verif hook) are replayed in the import model in-kernel; non-trivial = every program; distinct by program text + config"
 	n := 60
 	if tier == "thorough" {
 		n = 1500
@@ -165,7 +165,7 @@ func RunC01(tier string, seed int64, outDir string, replay string) (*core.Result
 		defer os.Chdir(wd)
 	}
 	_ = os.Chdir(mod.Root)
-	var terms []string
+	var terms, impTerms []string
 	var items []*BuildItem
 	itemIdx := map[int]*Case{}
 	caseIndex := map[string]interface{}{}
@@ -200,6 +200,10 @@ func RunC01(tier string, seed int64, outDir string, replay string) (*core.Result
 			_ = os.WriteFile(mod.Dir(i)+"/generated.go", o.GoBytes, 0o644)
 			os.RemoveAll(mod.Dir(i) + "/ops") // the inputs (some are .go files) are not part of the output package
 		}
+		if len(o.ImportLog) > 0 {
+			impTerms = append(impTerms, ImpCaseTerm(i, o.ImportLog))
+			res.Dist(fmt.Sprintf("imports:%d", len(o.ImportLog)))
+		}
 		if o.Class == "pipeline" || o.Class == "TIMEOUT" {
 			continue
 		}
@@ -231,8 +235,13 @@ func RunC01(tier string, seed int64, outDir string, replay string) (*core.Result
 	if err != nil {
 		return nil, err
 	}
-	res.CasesV = files
-	res.ModelCases = len(terms)
+	impFiles, err := WriteImpCases(outDir, impTerms, 200)
+	if err != nil {
+		return nil, err
+	}
+	res.CasesV = append(files, impFiles...)
+	res.ModelCases = len(terms) + len(impTerms)
+	res.Extra["import_logs"] = len(impTerms)
 	return res, nil
 }
 
